@@ -55,8 +55,12 @@ def execute_run(mod, seed: int, run_index: int, tier: str, values=None, keep_tap
     # safety net against endless loops inside third-party optimisers: CPU-time based, turns a
     # runaway run into an "inconclusive" verdict (counted in the evidence, never a VIOLATION)
     cpu_limit = getattr(mod, "CPU_LIMIT", 0)
+    guard = {"fired": False}
     if cpu_limit:
         def _on_cpu_limit(signum, frame):
+            # The exception may be raised inside a callback of a C library that swallows or converts it (NLopt turns it
+            # into another error): the flag makes the run inconclusive whatever comes out of it.
+            guard["fired"] = True
             raise Inconclusive(f"CPU limit of {cpu_limit}s reached")
 
         signal.signal(signal.SIGVTALRM, _on_cpu_limit)
@@ -79,6 +83,10 @@ def execute_run(mod, seed: int, run_index: int, tier: str, values=None, keep_tap
             ctx.cleanup()
         except Exception:  # noqa: BLE001
             pass
+    if guard["fired"]:
+        res["status"] = "inconclusive"
+        res["error"] = f"CPU limit of {cpu_limit}s reached"
+        ctx.violations.clear()
     res["violations"] = [v.as_dict() for v in ctx.violations]
     res["digest"] = ctx.digest()
     res["fired"] = dict(ctx.fired)
